@@ -17,7 +17,11 @@ def probe(src_rel, exprs, label):
     """evaluate constant expressions in the scope of a .c file: returns dict name->int (None if not constant)"""
     txt = '#include "%s"\n' % os.path.join(driver.REPO, src_rel)
     for name, ex in exprs.items():
-        txt += "static const unsigned long long lcb_probe_%s = (unsigned long long)(%s);\n" % (name, ex)
+        if ex.startswith("IFDEF:"):
+            m = ex[6:]
+            txt += "#ifdef %s\nstatic const unsigned long long lcb_probe_%s = (unsigned long long)(%s);\n#endif\n" % (m, name, m)
+        else:
+            txt += "static const unsigned long long lcb_probe_%s = (unsigned long long)(%s);\n" % (name, ex)
     spec = driver.UnitSpec(label, "text", txt)
     u = driver.load_units([spec], no_bodies=True)[label]
     res = {}
